@@ -387,9 +387,15 @@ func genCase(rt *rapid.T) c09Case {
 	}
 	bits := rapid.SampledFrom([]int{1024, 1024, 1024, 1536, 2048}).Draw(rt, "bits")
 	c.Key = loginpeer.PoolKey(bits, rapid.IntRange(0, 1).Draw(rt, "keyidx"))
-	c.Nonce = rapid.SliceOfN(rapid.Byte(), 1, 64).Draw(rt, "nonce")
+	if rapid.IntRange(0, 4).Draw(rt, "nonceclass") == 0 {
+		// nonce + 32-byte session key fill the OAEP capacity exactly (or nearly)
+		n := c.Key.Capacity() - 32 - rapid.IntRange(0, 1).Draw(rt, "below")
+		c.Nonce = rapid.SliceOfN(rapid.Byte(), n, n).Draw(rt, "nonce-at-capacity")
+	} else {
+		c.Nonce = rapid.SliceOfN(rapid.Byte(), 1, 64).Draw(rt, "nonce")
+	}
 	capacity := c.Key.Capacity() - len(c.Nonce)
-	over := rapid.IntRange(0, 19).Draw(rt, "overcapacity") == 0
+	over := rapid.IntRange(0, 19).Draw(rt, "overcapacity") == 0 && capacity >= 32
 	c.Password = genSecret(rt, "password", capacity, &c)
 	if over {
 		c.Password = rapid.SliceOfN(rapid.Byte(), capacity+1, capacity+20).Draw(rt, "overpw")
